@@ -164,13 +164,14 @@ def want(src: str, pol: bool = True) -> list:
     return atoms(ast.parse(src, mode="eval").body, pol)
 
 
-def facts(fl, node: ast.AST, expanded: bool = True) -> set:
-    """Canonical guard atoms in force at `node` (locals expanded to their unique definitions when `expanded`)."""
+def facts(fl, node: ast.AST, expanded: bool = True, both: bool = True) -> set:
+    """Canonical guard atoms in force at `node`.  expanded: locals replaced by their unique definitions; both: the
+    as-written form is included as well (convenient for `holds`, wrong for exact-set comparisons: pass both=False)."""
     st = fl.state_at(node)
-    return facts_of_state(st, expanded)
+    return facts_of_state(st, expanded, both)
 
 
-def facts_of_state(st, expanded: bool = True) -> set:
+def facts_of_state(st, expanded: bool = True, both: bool = True) -> set:
     out = set()
     for f in st.facts:
         if f.kind != "cond":
@@ -178,7 +179,7 @@ def facts_of_state(st, expanded: bool = True) -> set:
         n = f.xnode if expanded else f.node
         for a in atoms(n, f.pol):
             out.add(a)
-        if expanded and f.xnode is not f.node:
+        if expanded and both and f.xnode is not f.node:
             for a in atoms(f.node, f.pol):
                 out.add(a)
     return out
@@ -200,3 +201,97 @@ def same(a: ast.AST, b) -> bool:
 
 def mentions(fs: Iterable, needle: str) -> list:
     return sorted(a for a in fs if needle in a)
+
+
+# ---------------------------------------------------------------------------------------------------------------------
+# path conditions (DNF): every way of reaching a node from the function entry, as sets of canonical atoms
+# ---------------------------------------------------------------------------------------------------------------------
+def path_conditions(func_node: ast.AST, target: ast.AST, limit: int = 512) -> list:
+    """[set(atoms)] - one set per syntactic path from the entry of `func_node` to the statement containing `target`.
+
+    If-tests contribute their atoms (either polarity); loops contribute their test on entry and nothing after; a
+    `return`/`raise`/`continue`/`break` ends a path.  Atoms are over the SOURCE expressions (no expansion of locals);
+    atoms about names re-bound along the path are dropped from that point on.  Path explosion beyond `limit` raises."""
+    tstmt = None
+
+    def contains(s, t):
+        return any(x is t for x in ast.walk(s))
+
+    class Found(Exception):
+        pass
+
+    results = []
+
+    def kill(conds: frozenset, stmt) -> frozenset:
+        names = set()
+        for n in ast.walk(stmt):
+            if isinstance(n, ast.Name) and isinstance(n.ctx, (ast.Store, ast.Del)):
+                names.add(n.id)
+            elif isinstance(n, ast.Attribute) and isinstance(n.ctx, (ast.Store, ast.Del)):
+                d = dotted(n)
+                if d:
+                    names.add(d)
+        if not names:
+            return conds
+        import re
+        out = set()
+        for a in conds:
+            toks = set(re.findall(r"[A-Za-z_][A-Za-z_0-9.]*", a))
+            if any(t == nm or t.startswith(nm + ".") for t in toks for nm in names):
+                continue
+            out.add(a)
+        return frozenset(out)
+
+    def block(stmts, conds_list):
+        """-> list of condition sets that fall through the block"""
+        cur = conds_list
+        for s in stmts:
+            if not cur:
+                return []
+            if contains(s, target) and not isinstance(s, (ast.If, ast.For, ast.While, ast.With, ast.Try, ast.AsyncWith, ast.AsyncFor)):
+                results.extend(cur)
+                raise Found
+            cur = stmt(s, cur)
+            if len(cur) > limit:
+                raise ValueError("path explosion")
+        return cur
+
+    def stmt(s, cur):
+        if isinstance(s, (ast.Return, ast.Raise, ast.Continue, ast.Break)):
+            return []
+        if isinstance(s, ast.If):
+            if contains(s.test, target):
+                results.extend(cur)
+                raise Found
+            t = [frozenset(c | set(atoms(s.test, True))) for c in cur]
+            f = [frozenset(c | set(atoms(s.test, False))) for c in cur]
+            out = block(s.body, t) + (block(s.orelse, f) if s.orelse else f)
+            # de-duplicate
+            return list(dict.fromkeys(out))
+        if isinstance(s, (ast.With, ast.AsyncWith)):
+            return block(s.body, cur)
+        if isinstance(s, ast.Try):
+            out = block(s.body, cur)
+            for h in s.handlers:
+                out = out + block(h.body, cur)
+            if s.orelse:
+                out = block(s.orelse, out)
+            if s.finalbody:
+                out = block(s.finalbody, out)
+            return list(dict.fromkeys(out))
+        if isinstance(s, (ast.For, ast.AsyncFor, ast.While)):
+            inner = cur
+            if isinstance(s, ast.While):
+                inner = [frozenset(c | set(atoms(s.test, True))) for c in cur]
+            try:
+                block(s.body, inner)
+            except Found:
+                raise
+            return [kill(c, s) for c in cur]
+        return [kill(c, s) for c in cur]
+
+    try:
+        block(func_node.body, [frozenset()])
+    except Found:
+        pass
+    return [set(c) for c in dict.fromkeys(results)]
